@@ -16,8 +16,8 @@ BUDGET = {'quick': 700, 'thorough': 8000}
 RULE = ('op sequences (1..15 ops, thorough ..40): register (3 locations only, so most registrations share file+line '
         'with another; unique watch as the distinguishing tag; varied args; 5% with an unknown stage), unregister (live handle, already '
         'unregistered handle, never issued handle), service update through LongPoll.poll against a scripted fake '
-        'channel (0..3 tracepoints on the same locations), apply tasks run one at a time in a random order, usually '
-        'drained at the end. Non-trivial = an unregister removes a registration while another live registration shares '
+        'channel (0..3 tracepoints on the same locations), apply tasks run one at a time in a random order (35% of cases: '
+        'split into their regions with register/unregister in between), usually drained at the end. Non-trivial = an unregister removes a registration while another live registration shares '
         'its file and line. Distinct = distinct canonical JSON of the case.')
 TRUSTED = ['uuid4 handles are unique (modelled as fresh naturals)',
            'build_trigger is a function of (path, line, args, watches, metrics) — the model carries its result as an '
@@ -30,6 +30,7 @@ ASSUMPTIONS = ['a registration whose arguments build_trigger cannot interpret (u
 
 def gen_case(rng, tier):
     s = svcref.Sched(rng)
+    split = rng.random() < 0.35      # also place register / unregister between the regions of a running apply task
     n = rng.randint(1, 15 if tier == 'quick' else rng.choice([15, 25, 40]))
     for _ in range(n):
         r = rng.random()
@@ -43,10 +44,12 @@ def gen_case(rng, tier):
                 s.unregister()                                        # live or already unregistered
         elif r < 0.72:
             s.update()
+        elif split and rng.random() < 0.6:
+            s.read() if rng.random() < 0.5 else (s.advance() or s.start())
         elif not s.apply():
-            s.register()
+            s.advance() or s.register()
     if rng.random() < 0.85:
-        s.drain(atomic_only=True)
+        s.drain(atomic_only=not split)
     return {'kind': 'seq', 'ops': s.ops}
 
 
@@ -91,7 +94,7 @@ def oracle(case, obs):
                      f'{sorted(t["custom"])}, the register/unregister history leaves {want}')
         if n and op['op'] in ('register', 'unregister') and t['polled'] != obs['trace'][n - 1]['polled']:
             v.append(f'op {n} {op["op"]} changed the service configuration')
-        if t['queued'] == 0 and t['holding'] == 0 and sorted(t['installed']) != ref.expected():
+        if t['queued'] == 0 and t['pre'] == 0 and t['holding'] == 0 and sorted(t['installed']) != ref.expected():
             v.append(f'after op {n}, nothing in flight: installed {sorted(t["installed"])}, expected (service '
                      f'configuration + live registrations) {ref.expected()}')
         if len(v) >= 4:
@@ -123,7 +126,7 @@ def _shared_removals(case):
 def label(case, obs):
     ks = [o['op'] for o in case['ops']]
     return ('shared-loc-removal' if _shared_removals(case) else 'removal' if 'unregister' in ks else 'no-removal') + \
-        ('/service' if 'poll' in ks else '') + ('/settled' if obs['trace'] and obs['trace'][-1]['queued'] == 0 else '/in-flight')
+        ('/service' if 'poll' in ks else '') + ('/settled' if obs['trace'] and obs['trace'][-1]['queued'] + obs['trace'][-1]['pre'] + obs['trace'][-1]['holding'] == 0 else '/in-flight')
 
 
 def nontrivial(case, obs):
